@@ -110,6 +110,24 @@ def renameInput (f : String → String) (inp : Input) : Input :=
 /-- Replace the name `a` by `b` (every other name stays). -/
 def swapName (a b : String) : String → String := fun n => if n = a then b else n
 
+/-! ### Printing (for examples and messages) -/
+
+mutual
+/-- The expression in einx notation (an ellipsis over a list of several items in braces). -/
+def Expr.render : Expr → String
+  | .axis n => n
+  | .num v => toString v
+  | .brackets e => "[" ++ e.render ++ "]"
+  | .flat e => "(" ++ e.render ++ ")"
+  | .concat cs => "(" ++ Expr.renderL " + " cs ++ ")"
+  | .ellipsis _ e => "{" ++ e.render ++ "}..."
+  | .list cs => Expr.renderL " " cs
+def Expr.renderL (sep : String) : List Expr → String
+  | [] => ""
+  | [c] => c.render
+  | c :: cs => c.render ++ sep ++ Expr.renderL sep cs
+end
+
 /-! ### Observables and name hygiene -/
 
 def tval (σ : Var → Nat) : Term → Nat
